@@ -101,6 +101,7 @@ type PathResult struct {
 	Observes     []string
 	InitFails    []string
 	Merges       int
+	Cuts         []string
 }
 
 type Exec struct {
@@ -333,6 +334,53 @@ func (ex *Exec) concretize(t *Term, where string) uint64 {
 		ex.addPC(eq, ex.model)
 		return v
 	}
+}
+
+// pickOne fixes t to a single feasible value without queueing the others.
+// This is a recorded cut (incomplete by design): used only where behaviour
+// is uniform in t, e.g. allocation lengths larger than the whole input.
+func (ex *Exec) pickOne(t *Term, where string) uint64 {
+	if t.IsConst() {
+		return t.val
+	}
+	ex.res.Decisions++
+	if ex.pos < len(ex.prefix) {
+		enc := ex.prefix[ex.pos]
+		ex.pos++
+		ex.trace = append(ex.trace, enc)
+		ex.addPC(mkEq(t, mkConst(t.w, uint64(enc))), nil)
+		return uint64(enc)
+	}
+	var v uint64
+	ok := false
+	if ex.model != nil {
+		if mv, ok2 := evalTerm(t, ex.model, map[*Term]uint64{}); ok2 {
+			v, ok = mv, true
+		}
+	}
+	if !ok {
+		r, m := ex.solver.Check(nil, true)
+		if r != Sat || m == nil {
+			if r == Unsat {
+				panic(abortPath{"assume", "infeasible at pickOne"})
+			}
+			panic(abortPath{"unsupported", "solver unknown in pickOne at " + where})
+		}
+		ex.model = m
+		mv, ok2 := evalTerm(t, m, map[*Term]uint64{})
+		if !ok2 {
+			panic(abortPath{"unsupported", "cannot evaluate term in pickOne at " + where})
+		}
+		v = mv
+	}
+	if v > 1<<30 {
+		panic(abortPath{"unsupported", fmt.Sprintf("pickOne: value %d too large at %s", v, where)})
+	}
+	ex.pos++
+	ex.trace = append(ex.trace, int(v))
+	ex.addPC(mkEq(t, mkConst(t.w, v)), ex.model)
+	ex.res.Cuts = append(ex.res.Cuts, where)
+	return v
 }
 
 // ---- assertions ----
